@@ -116,6 +116,10 @@ Proof.
   destruct (Lang.run_impl None eps fuel l). discriminate.
 Qed.
 
+Lemma runs_have_front : forall eps fuel s, valid_utf8 s = true ->
+  (forall f, run_source eps fuel s <> NoFront f) /\ (forall f, run_source_impl eps fuel s <> NoFront f).
+Proof. intros eps fuel s V. split; [apply run_source_has_front | apply run_source_impl_has_front]; exact V. Qed.
+
 (* ================================================================== acceptance, rejection *)
 
 Lemma rejecting_phase_none : forall d, rejecting_phase d = None <-> accepted d = true.
@@ -360,4 +364,85 @@ Proof.
   rewrite (front_of_clean_lex _ _ _ L1) in Fd.
   destruct (parse_program Parser.variant_of_source t1); [|discriminate Fd].
   inversion Fd; subst d. cbn. auto.
+Qed.
+
+(* ================================================================== number literals
+   The tree keeps the literal text; resolver and runtime call `text.parse::<f64>()`; the model
+   reads it with NumParse.to_number.  Every text of the shape the lexer hands out for a Number
+   token (digits, or digits '.' digits: [number_literal]) is inside dec2flt's decimal grammar, so
+   the NaN fallback of to_number is never taken: the value is the correctly rounded decimal.
+   That the lexer model only produces such payloads is checked on every token of every run of the
+   correspondence (`numlit`), and is immediate for the token descriptors of C10 (below). *)
+
+Lemma all_digits_spec d : all_digits d = true -> Forall NumParseProofs.digit d /\ d <> [].
+Proof.
+  destruct d as [|b t]; [discriminate|]. intro H. split; [|discriminate].
+  unfold all_digits in H. apply Forall_forall. intros x Hx.
+  rewrite forallb_forall in H. specialize (H x Hx). unfold is_digit, in_range in H.
+  apply NumParseProofs.is_digit_spec. exact H.
+Qed.
+
+Lemma split_at_dot_spec : forall p i f, split_at_dot p = (i, f) ->
+  match f with Some fr => p = i ++ 46%Z :: fr | None => p = i end.
+Proof.
+  induction p as [|b t IH]; intros i f H; cbn [split_at_dot] in H.
+  - inversion H. reflexivity.
+  - destruct (b =? 46)%Z eqn:E.
+    + inversion H; subst. apply Z.eqb_eq in E. subst b. reflexivity.
+    + destruct (split_at_dot t) as [i' f'] eqn:S. inversion H; subst. specialize (IH i' f eq_refl).
+      destruct f; subst; reflexivity.
+Qed.
+
+Theorem number_literal_parses : forall p, number_literal p = true ->
+  exists ds e, NumParse.parse_decimal p = Some (ds, e) /\
+    num_of_text p = NumParseProofs.exact_round false (NumParse.digits_val 0 ds) e.
+Proof.
+  intros p H. unfold number_literal in H. destruct (split_at_dot p) as [i f] eqn:S.
+  pose proof (split_at_dot_spec p i f S) as Sp.
+  assert (body_ok : forall c t, p = c :: t -> all_digits i = true -> c <> 43%Z /\ c <> 45%Z).
+  { intros c t E Hi. destruct (all_digits_spec i Hi) as (Fi & Ni).
+    destruct i as [|b r]; [congruence|]. assert (c = b) by (destruct f; subst p; inversion E; reflexivity). subst c.
+    inversion Fi; subst. unfold NumParseProofs.digit in H2. lia. }
+  destruct f as [fr|].
+  - apply andb_true_iff in H. destruct H as [Hi Hf].
+    destruct (all_digits_spec i Hi) as (Fi & Ni). destruct (all_digits_spec fr Hf) as (Ff & Nf).
+    assert (P : NumParse.parse_decimal p = Some (i ++ fr, (- Z.of_nat (length fr))%Z)).
+    { rewrite Sp. apply NumParseProofs.parse_decimal_frac; auto. destruct i; [congruence | discriminate]. }
+    exists (i ++ fr), (- Z.of_nat (length fr))%Z. split; [exact P|].
+    unfold num_of_text. apply (NumParseProofs.to_number_decimal [] p _ _ (or_introl eq_refl)); [|exact P].
+    destruct p as [|c t]; [destruct i; discriminate Sp|]. exact (body_ok c t eq_refl Hi).
+  - destruct (all_digits_spec i H) as (Fi & Ni). subst p.
+    assert (P : NumParse.parse_decimal i = Some (i, 0%Z)) by (apply NumParseProofs.parse_decimal_int; auto).
+    exists i, 0%Z. split; [exact P|].
+    unfold num_of_text. apply (NumParseProofs.to_number_decimal [] i _ _ (or_introl eq_refl)); [|exact P].
+    destruct i as [|c t]; [congruence|]. exact (body_ok c t eq_refl H).
+Qed.
+
+(* the spellings C10 renders: a Number descriptor with diagnostic-free digits is such a text *)
+Lemma all_digits_of_digits_ok d : digits_ok d = true -> all_digits d = true.
+Proof. destruct d; intro H; exact H. Qed.
+
+Lemma split_at_dot_digits : forall i r, forallb is_digit i = true ->
+  split_at_dot (i ++ r) = (i ++ fst (split_at_dot r), snd (split_at_dot r)).
+Proof.
+  induction i as [|b t IH]; intros r H; [cbn [app]; destruct (split_at_dot r); reflexivity|].
+  cbn [forallb] in H. apply andb_true_iff in H. destruct H as [Hb Ht].
+  cbn [app split_at_dot].
+  assert (b =? 46 = false)%Z as ->.
+  { unfold is_digit, in_range in Hb. apply andb_true_iff in Hb. destruct Hb as [L1 L2].
+    apply Z.leb_le in L1. apply Z.eqb_neq. lia. }
+  rewrite (IH r Ht). destruct (split_at_dot r). reflexivity.
+Qed.
+
+Theorem rendered_numbers_are_literals : forall t, tk_ok t = true ->
+  match t with KNumber _ _ => number_literal (snd (fst (tk_tok t))) = true | _ => True end.
+Proof.
+  intros [k|k|w|i f|k|q segs last] H; try exact I. cbn [tk_tok fst snd tk_ok] in *.
+  apply andb_true_iff in H. destruct H as [Hi Hf]. unfold number_literal, number_text.
+  assert (Fi : forallb is_digit i = true) by (destruct i; [discriminate Hi | exact Hi]).
+  destruct f as [fr|].
+  - rewrite (split_at_dot_digits i (46%Z :: fr) Fi). cbn [split_at_dot Z.eqb Pos.eqb fst snd].
+    rewrite app_nil_r, (all_digits_of_digits_ok i Hi), (all_digits_of_digits_ok fr Hf). reflexivity.
+  - rewrite <- (app_nil_r i) at 1. rewrite (split_at_dot_digits i [] Fi). cbn [split_at_dot fst snd].
+    rewrite app_nil_r. apply all_digits_of_digits_ok. exact Hi.
 Qed.
